@@ -40,6 +40,15 @@ structure TrFacts where
   rawKept : List String
   addedTypes : List String
   rawResets : List String
+  /-- every `c.in.changeCipherSpec()` of the package, every assignment to `expectChangeCipherSpec`,
+  every `deferredCCS = true`, as `function:context` (context = the enclosing `case` of a switch,
+  else the enclosing `if`); every statement that marks the handshake complete, as
+  `function:last` (top-level statement of the function, only assignments / plain calls and the
+  final `return nil` behind it) or `function:early` -/
+  inCipherSwitches : List String
+  expectCcsAssigns : List String
+  deferredCcsSets : List String
+  doneMarks : List String
 
 def tlcpTr : TrFacts :=
   { clientHSAdds := Facts.tlcp.trClientHSAdds, clientFullReads := Facts.tlcp.trClientFullReads,
@@ -60,7 +69,9 @@ def tlcpTr : TrFacts :=
     versionCheck := Facts.tlcp.trVersionCheck, clientCompare := Facts.tlcp.trClientFinishedCompare,
     serverCompare := Facts.tlcp.trServerFinishedCompare,
     codecTypes := Facts.tlcp.trMsgCodecTypes, rawKept := Facts.tlcp.trRawKeptTypes,
-    addedTypes := Facts.tlcp.trAddedTypes, rawResets := Facts.tlcp.trRawResets }
+    addedTypes := Facts.tlcp.trAddedTypes, rawResets := Facts.tlcp.trRawResets,
+    inCipherSwitches := Facts.tlcp.trInCipherSwitches, expectCcsAssigns := Facts.tlcp.trExpectCcsAssigns,
+    deferredCcsSets := Facts.tlcp.trDeferredCcsSets, doneMarks := Facts.tlcp.trDoneMarks }
 
 def dtlcpTr : TrFacts :=
   { clientHSAdds := Facts.dtlcp.trClientHSAdds, clientFullReads := Facts.dtlcp.trClientFullReads,
@@ -81,7 +92,9 @@ def dtlcpTr : TrFacts :=
     versionCheck := Facts.dtlcp.trVersionCheck, clientCompare := Facts.dtlcp.trClientFinishedCompare,
     serverCompare := Facts.dtlcp.trServerFinishedCompare,
     codecTypes := Facts.dtlcp.trMsgCodecTypes, rawKept := Facts.dtlcp.trRawKeptTypes,
-    addedTypes := Facts.dtlcp.trAddedTypes, rawResets := Facts.dtlcp.trRawResets }
+    addedTypes := Facts.dtlcp.trAddedTypes, rawResets := Facts.dtlcp.trRawResets,
+    inCipherSwitches := Facts.dtlcp.trInCipherSwitches, expectCcsAssigns := Facts.dtlcp.trExpectCcsAssigns,
+    deferredCcsSets := Facts.dtlcp.trDeferredCcsSets, doneMarks := Facts.dtlcp.trDoneMarks }
 
 /-- the documented text of the Finished comparison (length and content, constant time) -/
 def fullCompare (who : String) : String :=
@@ -104,6 +117,13 @@ def ownMessageResets : List String :=
    "serverHandshakeState.doFullHandshake:helloDone.setMessageSeq",
    "serverHandshakeState.doResumeHandshake:hs.hello.setMessageSeq",
    "serverHandshakeState.sendFinished:finished.setMessageSeq"]
+
+/-- the only places where the read side may change its cipher state: the ChangeCipherSpec case of
+`readRecordOrCCS`, and (datagram stack) `readChangeCipherSpec` consuming the note `deferredCCS`
+that this same case left when the record arrived before the handshake layer asked for it -/
+def ccsCase : String := "Conn.readRecordOrCCS:case recordTypeChangeCipherSpec"
+
+def cipherSwitchSites : List String := ["Conn.readChangeCipherSpec:if c.in.deferredCCS", ccsCase]
 
 /-- the flags of the model, from the call lists.  The server reads the client's flight either
 with the hash (tlcp: `R:hash`) or with `nil` followed by `transcriptMsg` (dtlcp). -/
@@ -130,7 +150,10 @@ def flagsOf (t : TrFacts) : TFlags :=
     versCheckedOnlyWhenHave := t.versionCheck == "c.haveVers && vers != c.vers",
     decodedKeepRaw := !t.addedTypes.isEmpty && t.addedTypes.all (fun ty => t.rawKept.contains ty && t.codecTypes.contains ty) &&
       t.rawResets.all (ownMessageResets.contains ·),
-    sReadsViaMarshal := t.serverFullReads == [] }
+    sReadsViaMarshal := t.serverFullReads == [],
+    ccsOnlyByRecord := t.inCipherSwitches.contains ccsCase && t.inCipherSwitches.all (cipherSwitchSites.contains ·) &&
+      t.expectCcsAssigns.all (· == ccsCase) && t.deferredCcsSets.all (· == ccsCase),
+    doneMarkedLast := t.doneMarks == ["clientHandshakeState.handshake:last", "serverHandshakeState.handshake:last"] }
 
 def tlcpFlags : TFlags := flagsOf tlcpTr
 def dtlcpFlags : TFlags := flagsOf dtlcpTr
